@@ -7,6 +7,7 @@ import (
 	"errors"
 	"fmt"
 	"strings"
+	"sync/atomic"
 	"testing"
 
 	"go.opentelemetry.io/collector/component"
@@ -24,6 +25,33 @@ import (
 type vRItems struct{}
 
 func (vRItems) Sizeof(v uint64) int64 { return int64(v % 1000) }
+
+// vFailExt wraps the mock storage extension: while `fail` is set, client.Set(queueSizeKey, ...) - the periodic back-up of the queue
+// size - returns an error; everything else goes through
+type vFailExt struct {
+	storage.Extension
+	fail *atomic.Bool
+}
+
+func (e *vFailExt) GetClient(ctx context.Context, kind component.Kind, id component.ID, name string) (storage.Client, error) {
+	c, err := e.Extension.GetClient(ctx, kind, id, name)
+	if err != nil {
+		return nil, err
+	}
+	return &vFailClient{Client: c, fail: e.fail}, nil
+}
+
+type vFailClient struct {
+	storage.Client
+	fail *atomic.Bool
+}
+
+func (c *vFailClient) Set(ctx context.Context, key string, v []byte) error {
+	if key == queueSizeKey && c.fail.Load() {
+		return errors.New("verif: the queue-size back-up cannot be written")
+	}
+	return c.Client.Set(ctx, key, v)
+}
 
 type vRLife struct {
 	pq      *persistentQueue[uint64]
@@ -74,7 +102,8 @@ func vPQSizeCase(out *vOut, c int) {
 	}
 	reqSized := rnd.IntN(2) == 0
 	ext := storagetest.NewMockStorageExtension(nil)
-	host := hosttest.NewHost(map[component.ID]component.Component{{}: ext})
+	var failSi atomic.Bool
+	host := hosttest.NewHost(map[component.ID]component.Component{{}: &vFailExt{Extension: ext, fail: &failSi}})
 	reader, err := ext.GetClient(context.Background(), component.KindExporter, component.NewID(exportertest.NopType), pipeline.SignalTraces.String())
 	if err != nil {
 		panic(err)
@@ -95,7 +124,7 @@ func vPQSizeCase(out *vOut, c int) {
 	}
 	life := mk(capacity, reqSized)
 	out.Linef("case %d cap=%d req=%d", c, capacity, vB(reqSized))
-	var stRestarts, stRestartDisp, stCadence, stSwitch, stOver, stShutErr, stZero int
+	var stRestarts, stRestartDisp, stCadence, stSwitch, stOver, stShutErr, stZero, stFailSi, stFailedBackups int
 	nontrivial := false
 	lastSi := "-"
 	obs := func(ret string) {
@@ -167,6 +196,16 @@ func vPQSizeCase(out *vOut, c int) {
 			restart()
 			continue
 		}
+		if rnd.IntN(25) == 0 {
+			// the storage starts / stops refusing the size snapshot (only that key): a failing back-up must not turn a committed
+			// write into a refused Offer
+			failSi.Store(!failSi.Load())
+			if failSi.Load() {
+				stFailSi++
+			}
+			out.Linef("op failsi %d", vB(failSi.Load()))
+			obs("-")
+		}
 		r := rnd.IntN(100)
 		life.pq.mu.Lock()
 		nonEmpty := life.pq.readIndex != life.pq.writeIndex
@@ -192,6 +231,11 @@ func vPQSizeCase(out *vOut, c int) {
 			if lastSi != before {
 				stCadence++
 			}
+			life.pq.mu.Lock()
+			if failSi.Load() && !reqSized && life.pq.writeIndex%10 == 5 && err == nil {
+				stFailedBackups++
+			}
+			life.pq.mu.Unlock()
 		case r < 65 && nonEmpty:
 			out.Linef("op read")
 			_, v, done, ok := life.pq.Read(context.Background())
@@ -233,6 +277,8 @@ func vPQSizeCase(out *vOut, c int) {
 	out.Linef("stat pqsize_restart_size_above_capacity %d", stOver)
 	out.Linef("stat pqsize_done_with_shutdown_error %d", stShutErr)
 	out.Linef("stat pqsize_zero_sized_offers %d", stZero)
+	out.Linef("stat pqsize_si_set_made_to_fail %d", stFailSi)
+	out.Linef("stat pqsize_writes_whose_backup_failed %d", stFailedBackups)
 	out.Linef("end")
 }
 
@@ -251,4 +297,3 @@ func vPQSizeDone(out *vOut, k int, shutErr bool, life *vRLife, obs func(string),
 	obs("-")
 }
 
-var _ storage.Client = (*storagetest.MockStorageClient)(nil)
